@@ -84,4 +84,15 @@ Section WithV.
     destruct (merge_img_at_ok unitv _ _ _ Hr) as (a & b & E & _ & _ & Hrr). cbn [map fst] in E. injection E as <- <-.
     cbn zeta in Hrr. subst r. cbn [ishape]. cbn [map length]. rewrite !map_length. reflexivity.
   Qed.
+
+  (** ... in particular extension and image agree on the slice dim whenever the merged header still has one
+      (all inputs agreed on it), or the first extension had none *)
+  Lemma from_sequence_w_sdim unitv (ws : list (wrapper V)) odim r e im0 e0 rest :
+    ws = (im0, e0) :: rest ->
+    from_sequence_w veqb vnone unitv ws odim = Ok (r, e) ->
+    (islice r <> None \/ sdim (hdr_of e0) = None) -> sdim (hdr_of e) = islice r.
+  Proof.
+    intros Hws H Hc. destruct (from_sequence_w_agree unitv ws odim r e im0 e0 rest Hws H) as (_ & Hsd & _).
+    rewrite Hsd. destruct (islice r) as [d|]; [reflexivity|]. destruct Hc as [Hc|Hc]; [congruence | exact Hc].
+  Qed.
 End WithV.
